@@ -1,5 +1,5 @@
 /-
-Tie of the v2 twin to the current sources of pkg/controller/v2/{proposal,configuration,mastership}
+Tie of the v2 twin to the current sources of pkg/controller/v2/{proposal,transaction,configuration,mastership}
 (for C01 C02 C04 C05 C06 C07 C09 C10 C11): every reconcile function of these controllers is
 regenerated on every run as a Lean function `Generated.v2sk_*` (its trace — tracked assignments,
 store writes / southbound requests, the return — as a function of an abstract state), and the twin's
@@ -15,10 +15,13 @@ swapped field), a write that is dropped, added or re-ordered, a re-queue that is
 another proposal, a status field assigned another value: each changes the regenerated function, and
 the theorem below for that function no longer checks.  What the tie does not see: the values moved
 by the `plumbing` assignments (value-path twin and its correspondence), iteration counts of loops,
-the transaction controller (tied by correspondence only).
+iterations of the transaction controller's loops beyond the first (its theorems are for
+transactions that list one proposal) and its creation of proposals (reconcileInitialize before the
+proposals are listed): tied by correspondence only.
 -/
 import OnosVerif.Proofs.V2SkelProp
 import OnosVerif.Proofs.V2SkelCfg
+import OnosVerif.Proofs.V2SkelTx
 
 namespace OnosVerif.Props.V2Skel
 open OnosVerif.Generated OnosVerif.V2 OnosVerif.V2.Skel
@@ -118,6 +121,92 @@ theorem V2_skel_mast_reconcile (s : Sys) (t : Tgt) (env : Env) :
         (s.rels.filter (fun r => r.target = t)).length)) =
       .misc "defer" :: planTraceMast ((s.cfg? t).getD default) (mastReconcile s t env) :=
   skel_mast_reconcile s t env
+
+/-! ### the transaction reconciler, for transactions that list one proposal -/
+
+theorem V2_skel_tx_dispatch (t : Tx) (p : Proposal) (q : Tx) (b1 b2 : Bool) :
+    v2sk_tx_dispatch (gTxOf t b1 p b2 q) =
+      if t.apply ≠ .none then [.call "r.reconcileApply", .ret "call" []]
+      else if t.abort ≠ .none then [.call "r.reconcileAbort", .ret "call" []]
+      else if t.commit ≠ .none then [.call "r.reconcileCommit", .ret "call" []]
+      else if t.validate ≠ .none then [.call "r.reconcileValidate", .ret "call" []]
+      else if t.init ≠ .none then [.call "r.reconcileInitialize", .ret "call" []]
+      else planTraceTx { effects := [.tx t.index t.version .openInit] } :=
+  skel_tx_dispatch t p q b1 b2
+
+/-- VALIDATING: open the phase on a proposal that has not got it, fail on a failed one, close the
+    phase when the proposal is validated, wait while it is validating -/
+theorem V2_skel_tx_validate_loop (t : Tx) (p : Proposal) (q : Tx) (b : Bool) (h : t.validate = .opened) :
+    proj (v2sk_tx_validate (gTxOf t false p b q)) =
+      flagToks "allValidated" p.validate ++ planTraceTx (txValidateLoop t [p] true) :=
+  skel_tx_validate_loop t p q b h
+
+theorem V2_skel_tx_commit_loop (t : Tx) (p : Proposal) (q : Tx) (b : Bool) (h : t.commit = .opened) :
+    proj (v2sk_tx_commit (gTxOf t false p b q)) =
+      flagToks "allCommitted" p.commit ++ planTraceTx (txCommitLoop t [p] true) :=
+  skel_tx_commit_loop t p q b h
+
+theorem V2_skel_tx_apply_loop (t : Tx) (p : Proposal) (q : Tx) (b : Bool) (h : t.apply = .opened) :
+    proj (v2sk_tx_apply (gTxOf t false p b q)) =
+      flagToks "allApplied" p.apply ++ planTraceTx (txApplyLoop t [p] true) :=
+  skel_tx_apply_loop t p q b h
+
+theorem V2_skel_tx_abort_loop (t : Tx) (p : Proposal) (q : Tx) (b : Bool) (h : t.abort = .opened) :
+    proj (v2sk_tx_abort (gTxOf t false p b q)) =
+      flagToks "allAborted" p.abort ++ planTraceTx (txAbortLoop t [p] true) :=
+  skel_tx_abort_loop t p q b h
+
+/-- VALIDATED: open the Commit phase unless the proposal's predecessor transaction is SERIALIZABLE
+    and not yet COMMITTED -/
+theorem V2_skel_tx_validate_done (s : Sys) (t : Tx) (p : Proposal) (h : t.validate = .done) :
+    proj (v2sk_tx_validate (gTxOf t false p (s.tx? p.prev).isNone ((s.tx? p.prev).getD default))) =
+      planTraceTx (if waitsForSerializable s [p] .committed then .nop
+        else { effects := [.tx t.index t.version .openCommit] }) :=
+  skel_tx_validate_done s t p h
+
+/-- COMMITTED: open the Apply phase unless the predecessor transaction is SERIALIZABLE and not yet APPLIED -/
+theorem V2_skel_tx_commit_done (s : Sys) (t : Tx) (p : Proposal) (h : t.commit = .done) :
+    proj (v2sk_tx_commit (gTxOf t false p (s.tx? p.prev).isNone ((s.tx? p.prev).getD default))) =
+      planTraceTx (if waitsForSerializable s [p] .applied then .nop
+        else { effects := [.tx t.index t.version .openApply] }) :=
+  skel_tx_commit_done s t p h
+
+/-- INITIALIZED (transaction): open the Validate phase and wake the next transaction of the log,
+    unless the predecessor transaction is SERIALIZABLE and not yet VALIDATED -/
+theorem V2_skel_tx_initialize_done (s : Sys) (t : Tx) (p : Proposal) (pl : Tx) (b : Bool) (h : t.init = .done) :
+    proj (v2sk_tx_initialize (gTxInitOf t false p b pl (s.tx? p.prev).isNone ((s.tx? p.prev).getD default))) =
+      planTraceTx (if waitsForSerializable s [p] .validated then .nop
+        else { effects := [.tx t.index t.version .openValidate], requeue := some (.tx (t.index + 1)) }) :=
+  skel_tx_initialize_done s t p pl b h
+
+/-- INITIALIZING (transaction) once the proposals are listed: wait for the previous transaction of
+    the log to be initialised, then close the phase when the proposal is initialised -/
+theorem V2_skel_tx_initialize_listed (s : Sys) (t : Tx) (p : Proposal) (q : Tx) (b : Bool)
+    (h : t.init = .opened) (hprops : t.proposals = some [(p.target, p.index)])
+    (hp : s.prop? (p.target, p.index) = some p) :
+    proj (v2sk_tx_initialize (gTxInitOf t false p (s.tx? (t.index - 1)).isNone ((s.tx? (t.index - 1)).getD default) b q)) =
+      (if waitsPrevInit s t then [.ret "nil" []]
+       else .set "allInitialized" "true" ::
+         ((if p.init = .none ∨ p.init = .opened then [.set "allInitialized" "false"] else []) ++
+           planTraceTx (txInitProposals s t))) :=
+  skel_tx_initialize_listed s t p q b h hprops hp
+
+/-- a listed proposal that is not found ends the invocation without a write (every loop) -/
+theorem V2_skel_tx_missing (t : Tx) (p : Proposal) (q : Tx) (b : Bool) :
+    (t.validate = .opened → proj (v2sk_tx_validate (gTxOf t true p b q)) = [.set "allValidated" "true", .ret "nil" []]) ∧
+    (t.commit = .opened → proj (v2sk_tx_commit (gTxOf t true p b q)) = [.set "allCommitted" "true", .ret "nil" []]) ∧
+    (t.apply = .opened → proj (v2sk_tx_apply (gTxOf t true p b q)) = [.set "allApplied" "true", .ret "nil" []]) ∧
+    (t.abort = .opened → proj (v2sk_tx_abort (gTxOf t true p b q)) = [.set "allAborted" "true", .ret "nil" []]) :=
+  skel_tx_missing t p q b
+
+/-- updateTransactionStatus swallows NotFound and Conflict -/
+theorem V2_skel_tx_updateStatus (g : V2G) :
+    proj (v2sk_tx_updateStatus g) =
+      .write "r.transactions.UpdateStatus" ::
+        (if g.b "err@r.transactions.UpdateStatus#1" &&
+            !(g.b "errors.IsNotFound(err)@r.transactions.UpdateStatus#1") &&
+            !(g.b "errors.IsConflict(err)@r.transactions.UpdateStatus#1") then [.ret "err" []] else [.ret "nil" []]) :=
+  skel_tx_updateStatus g
 
 /-! non-vacuity: a concrete state in which the abort skeleton takes its first branch, with the
     trace written out -/
